@@ -16,9 +16,9 @@ import (
 
 	"github.com/koordinator-sh/koordinator/apis/extension"
 	slov1alpha1 "github.com/koordinator-sh/koordinator/apis/slo/v1alpha1"
+	koordslolisters "github.com/koordinator-sh/koordinator/pkg/client/listers/slo/v1alpha1"
 	deschedulerconfig "github.com/koordinator-sh/koordinator/pkg/descheduler/apis/config"
 	"github.com/koordinator-sh/koordinator/pkg/descheduler/framework"
-	koordslolisters "github.com/koordinator-sh/koordinator/pkg/client/listers/slo/v1alpha1"
 	"github.com/koordinator-sh/koordinator/pkg/descheduler/utils/sorter"
 	"github.com/koordinator-sh/koordinator/pkg/zzverif"
 )
@@ -70,8 +70,8 @@ func (w *zzvWorld) GetPodsAssignedToNodeFunc() framework.GetPodsAssignedToNodeFu
 	}
 }
 func (w *zzvWorld) Get(name string) (*slov1alpha1.NodeMetric, error) { return w.metrics[name], nil }
-func (w *zzvWorld) Filter(pod *corev1.Pod) bool                     { return true }
-func (w *zzvWorld) PreEvictionFilter(pod *corev1.Pod) bool          { return true }
+func (w *zzvWorld) Filter(pod *corev1.Pod) bool                      { return true }
+func (w *zzvWorld) PreEvictionFilter(pod *corev1.Pod) bool           { return true }
 
 func (w *zzvWorld) nodeHigh(i int) bool { return w.usage[i] > zzvHigh }
 func (w *zzvWorld) nodeLow(i int) bool  { return w.usage[i] <= zzvLow }
@@ -79,11 +79,13 @@ func (w *zzvWorld) prodHigh(i int) bool { return w.useProd && w.prodUsage[i] > z
 func (w *zzvWorld) prodLow(i int) bool  { return w.useProd && w.prodUsage[i] <= zzvProdLow }
 
 // the classes of classifyNodes, restated from the property's thresholds
-func (w *zzvWorld) isLowOnly(i int) bool  { return w.nodeLow(i) && !w.prodHigh(i) && !w.prodLow(i) }
-func (w *zzvWorld) isBothLow(i int) bool  { return w.nodeLow(i) && !w.prodHigh(i) && w.prodLow(i) }
-func (w *zzvWorld) isProdLow(i int) bool  { return !w.nodeLow(i) && !w.nodeHigh(i) && !w.prodHigh(i) && w.prodLow(i) }
-func (w *zzvWorld) isSource(i int) bool   { return !w.nodeLow(i) && w.nodeHigh(i) }
-func (w *zzvWorld) isProdSrc(i int) bool  { return (w.nodeLow(i) || !w.nodeHigh(i)) && w.prodHigh(i) }
+func (w *zzvWorld) isLowOnly(i int) bool { return w.nodeLow(i) && !w.prodHigh(i) && !w.prodLow(i) }
+func (w *zzvWorld) isBothLow(i int) bool { return w.nodeLow(i) && !w.prodHigh(i) && w.prodLow(i) }
+func (w *zzvWorld) isProdLow(i int) bool {
+	return !w.nodeLow(i) && !w.nodeHigh(i) && !w.prodHigh(i) && w.prodLow(i)
+}
+func (w *zzvWorld) isSource(i int) bool  { return !w.nodeLow(i) && w.nodeHigh(i) }
+func (w *zzvWorld) isProdSrc(i int) bool { return (w.nodeLow(i) || !w.nodeHigh(i)) && w.prodHigh(i) }
 
 func (w *zzvWorld) Evict(ctx context.Context, pod *corev1.Pod, opts framework.EvictOptions) bool {
 	w.calls++
@@ -188,9 +190,9 @@ func zzvRound(useProd bool, layout [][]bool) {
 	sorter.ZzvSortCalls = 0
 	w := zzvBuild(useProd, layout)
 	pool := deschedulerconfig.LowNodeLoadNodePool{Name: "pool",
-		LowThresholds:   deschedulerconfig.ResourceThresholds{corev1.ResourceCPU: 30},
-		HighThresholds:  deschedulerconfig.ResourceThresholds{corev1.ResourceCPU: 60},
-		ResourceWeights: map[corev1.ResourceName]int64{corev1.ResourceCPU: 1, corev1.ResourceMemory: 1},
+		LowThresholds:    deschedulerconfig.ResourceThresholds{corev1.ResourceCPU: 30},
+		HighThresholds:   deschedulerconfig.ResourceThresholds{corev1.ResourceCPU: 60},
+		ResourceWeights:  map[corev1.ResourceName]int64{corev1.ResourceCPU: 1, corev1.ResourceMemory: 1},
 		AnomalyCondition: &deschedulerconfig.LoadAnomalyCondition{ConsecutiveAbnormalities: 1}}
 	if useProd {
 		pool.ProdLowThresholds = deschedulerconfig.ResourceThresholds{corev1.ResourceCPU: 20}
